@@ -124,3 +124,13 @@ prop(
     level_text="For generated sequences of set_scripts (all / partial / delete, empty lists, duplicates, start numbers above and below current progress, re-adding deleted scripts) issued at random points of an ongoing sync (with matched blocks pending or partly downloaded): get_scripts equals the README model right after each call, pending matched blocks are discarded, no script reports a filtered height while a block at or below it that touches it is not indexed, and after convergence every kept script has its complete history and no phantom cell.",
     level_note="inputs whose previous output predates a script's start number cannot be attributed by design and are reported under C03",
 )
+
+prop(
+    "C08", "fault_enumeration",
+    rule="one evaluation = one (history, write boundary k) pair: the client is killed immediately before its k-th storage write (put / delete / batch commit), reopened twice, the interrupted RPC call is repeated, syncing continues and the final RPC answers are compared with the reference indexer; "
+         "every k in 1..=W of every generated history is run; a cell = (write site, enclosing operation, recovery outcome)",
+    sizes=tiers(16, 2, 75, 16, 60, 1500, min_evals=300, min_cells=10),
+    technique="runtime fault injection at the before_write hook (process-death model: writes < k durable, write k and later never happen), restart from disk, bounded-progress recovery, reference-indexer comparison",
+    level_text="For every generated sync history (first-run initialisation, set_scripts all / delete, filter batches, block download and indexing, tip updates, check point finalization, shallow fork rollback, restarts) a crash-free run is validated against the reference indexer and then every write boundary of that history is crashed: the store must reopen (twice in a row) without panic and continued syncing must reach answers equal to the reference at the final tip.",
+    level_note="process death between two writes (batches are atomic); torn writes / fsync loss are out of scope; all scripts are registered with start number 0 so that the reference is exact; one serving peer keeps the write sequence reproducible (crash points not reached are counted, not claimed)",
+)
